@@ -107,7 +107,7 @@ def run_unit(unit, repo=None, keep=False):
             rep["status"] = "undecided"
             rep["reason"] = "verus reported errors that map to no obligation: " + err[-1500:]
             return rep
-        if rep["verified"] == 0:
+        if rep["verified"] == 0 and not rep["failed"]:
             rep["status"] = "undecided"
             rep["reason"] = "zero obligations verified (vacuous run)"
             return rep
